@@ -101,4 +101,79 @@ theorem valid_cell_count (r : Nat) (hr : r ≤ 15) :
   rw [mem_cellsEnum_iff r hr x, isValidCell_eq_layout]
   cases layoutSpec x <;> simp
 
+/-! ### pentagons and resolution-0 cells -/
+
+theorem center_fields : ∀ r : Fin 16, ∀ bc : Fin 122,
+    getHighBit (setH3Index r.val bc.val 0) = 0 ∧ getMode (setH3Index r.val bc.val 0) = 1 ∧
+    getReserved (setH3Index r.val bc.val 0) = 0 ∧ getRes (setH3Index r.val bc.val 0) = r.val ∧
+    getBaseCell (setH3Index r.val bc.val 0) = bc.val ∧
+    ∀ q : Fin 16, 0 < q.val → getDigit (setH3Index r.val bc.val 0) q.val = if q.val ≤ r.val then 0 else 7 := by
+  decide +kernel
+
+/-- **C03 (pentagons): the valid pentagons of resolution r are exactly the cells getPentagons returns**,
+and there are twelve of them, pairwise distinct -/
+theorem pentagons_exact (r : Nat) (hr : r ≤ 15) :
+    ∃ l, getPentagons (r : Int) = .ok l ∧ l.length = 12 ∧ l.Nodup ∧
+      ∀ x, x ∈ l ↔ (layoutSpec x = true ∧ getRes x = r ∧ isPentagon x = true) := by
+  have hdom : (decide ((r : Int) < 0) || decide ((r : Int) > 15)) = false := by simp; omega
+  refine ⟨_, by unfold getPentagons; simp only [hdom, Bool.false_eq_true, if_false, Int.toNat_natCast]; rfl, ?_, ?_, ?_⟩
+  · rw [List.length_map]; exact H3.C03.twelve_pentagon_base_cells.1
+  · rw [List.nodup_map_iff_inj_on (List.nodup_range.filter _)]
+    intro a ha b hb hab
+    simp only [List.mem_filter, List.mem_range] at ha hb
+    have ea := (center_fields ⟨r, by omega⟩ ⟨a, ha.1⟩).2.2.2.2.1
+    have eb := (center_fields ⟨r, by omega⟩ ⟨b, hb.1⟩).2.2.2.2.1
+    simp only [] at ea eb
+    rw [← ea, ← eb, hab]
+  · intro x
+    simp only [List.mem_map, List.mem_filter, List.mem_range]
+    constructor
+    · rintro ⟨bc, ⟨hbc, hp⟩, rfl⟩
+      obtain ⟨f1, f2, f3, f4, f5, f6⟩ := center_fields ⟨r, by omega⟩ ⟨bc, hbc⟩
+      simp only [] at f1 f2 f3 f4 f5 f6
+      have hpent : isPentagon (setH3Index r bc 0) = true := by
+        rw [isPentagon_iff, f5, f4]
+        refine ⟨hp, fun q h1 h2 => ?_⟩
+        rw [f6 ⟨q, by omega⟩ h1]; simp [h2]
+      refine ⟨(layoutSpec_iff _).mpr ⟨f1, f2, f3, by rw [f5]; exact hbc, ?_, ?_⟩, f4, hpent⟩
+      · intro q h1 h15
+        rw [f4, f6 ⟨q, by omega⟩ h1]
+        by_cases e : q ≤ r <;> simp [e]
+      · intro _ q h1 h2 hd
+        rw [f4] at h2
+        rw [f6 ⟨q, by omega⟩ h1] at hd
+        simp [h2] at hd
+    · rintro ⟨hl, hres, hp⟩
+      obtain ⟨v1, v2, v3, v4, v5, _⟩ := (layoutSpec_iff x).mp hl
+      obtain ⟨hbp, hz⟩ := (isPentagon_iff x).mp hp
+      refine ⟨getBaseCell x, ⟨v4, hbp⟩, ?_⟩
+      obtain ⟨f1, f2, f3, f4, f5, f6⟩ := center_fields ⟨r, by omega⟩ ⟨getBaseCell x, v4⟩
+      simp only [] at f1 f2 f3 f4 f5 f6
+      symm
+      apply Bits.ext
+      · rw [v1, f1]
+      · rw [v2, f2]
+      · rw [v3, f3]
+      · rw [hres, f4]
+      · rw [f5]
+      · intro q h1 h15
+        rw [f6 ⟨q, by omega⟩ h1]
+        by_cases e : q ≤ r
+        · rw [if_pos e]; exact hz q h1 (by omega)
+        · rw [if_neg e]
+          have := v5 q h1 h15
+          rw [if_neg (by omega)] at this
+          exact this
+
+theorem res0_eq_enum : getRes0Cells = cellsEnumS 0 := by decide +kernel
+
+/-- **C03 (res-0 cells): getRes0Cells lists exactly the 122 valid cells of resolution 0** -/
+theorem res0_exact : getRes0Cells.length = 122 ∧ getRes0Cells.Nodup ∧
+    ∀ x, x ∈ getRes0Cells ↔ (layoutSpec x = true ∧ getRes x = 0) := by
+  rw [res0_eq_enum]
+  refine ⟨?_, cellsEnum_nodup 0 (by omega), fun x => mem_cellsEnum_iff 0 (by omega) x⟩
+  have := (cells_enum_length 0 (by omega)).1
+  norm_num at this
+  exact_mod_cast this
+
 end H3.C03C
